@@ -115,7 +115,39 @@ func (fr *Frame) doCall(instr ssa.CallInstruction, cc *ssa.CallCommon, st *State
 		return fr.staticCall(ctx, callee)
 	}
 	fv := fr.get(cc.Value)
+	if fv.Clo != nil && fv.Clo.unknown {
+		name := fr.valName(cc.Value)
+		ctx.name = "dyn:" + name
+		e.note("unmodelled", "call through a loop-carried function variable "+name+" (result and all module stores havocked)")
+		return fr.havocCall(ctx, true)
+	}
+	if fv.Clo != nil && len(fv.Clo.alts) > 0 {
+		// one execution per possible callee, merged
+		var conds []string
+		var sts []*State
+		var vals []Val
+		for _, alt := range fv.Clo.alts {
+			s2 := st.clone()
+			s2.cond = e.vc.define("callalt", "Bool", and(st.cond, alt.cond))
+			c2 := *ctx
+			c2.st = s2
+			c2.args = append([]Val{}, args...)
+			vals = append(vals, fr.callClosure(&c2, alt.clo, c2.args))
+			conds = append(conds, s2.cond)
+			sts = append(sts, s2)
+		}
+		m := e.mergeStates(conds, sts)
+		*st = *m
+		res := vals[len(vals)-1]
+		for j := len(vals) - 2; j >= 0; j-- {
+			res = fr.iteVal(conds[j], vals[j], res)
+		}
+		return res
+	}
 	if fv.Clo != nil {
+		return fr.callClosure(ctx, fv.Clo, args)
+	}
+	if false {
 		if fv.Clo.recv != nil {
 			args = append([]Val{*fv.Clo.recv}, args...)
 			ctx.args = args
@@ -132,6 +164,19 @@ func (fr *Frame) doCall(instr ssa.CallInstruction, cc *ssa.CallCommon, st *State
 	e.setHeap(st, "called_"+mangle(name), "Bool", "true")
 	e.note("unmodelled", "dynamic call through function value "+name+" (result and all module stores havocked; ghost called("+name+") set)")
 	return fr.havocCall(ctx, true)
+}
+
+// callClosure calls one concrete closure value.
+func (fr *Frame) callClosure(ctx *callCtx, clo *closureVal, args []Val) Val {
+	if clo.recv != nil {
+		args = append([]Val{*clo.recv}, args...)
+		ctx.args = args
+		return fr.staticCall(ctx, clo.fn)
+	}
+	if len(clo.fn.Blocks) > 0 && (clo.fn.Parent() != nil || len(clo.fn.FreeVars) > 0) {
+		return fr.inline(ctx, clo.fn, clo.bindings, args)
+	}
+	return fr.staticCall(ctx, clo.fn)
 }
 
 func typeKeyFull(t types.Type) string {
@@ -182,7 +227,7 @@ func (fr *Frame) staticCall(ctx *callCtx, callee *ssa.Function) Val {
 		if strings.HasSuffix(callee.Name(), "Logger") && callee.Signature.Recv() != nil {
 			return fr.pureHavoc(ctx)
 		}
-		if c := e.prog.Contracts[key]; c != nil && callee != e.root {
+		if c := e.prog.Contracts[key]; c != nil && callee != e.root && !(c.Uses["inline_at_calls"] && len(callee.Blocks) > 0 && fr.depth < e.maxInline && !fr.onStack(callee)) {
 			return fr.logRet(ctx, callee, fr.contractCall(ctx, callee, c))
 		}
 		if len(callee.Blocks) > 0 && fr.depth < e.maxInline && !fr.onStack(callee) {
@@ -527,7 +572,7 @@ func (e *Engine) callMods(fr *Frame, fn *ssa.Function, x ssa.CallInstruction, de
 			if strings.HasSuffix(callee.Name(), "Logger") {
 				return
 			}
-			if c := e.prog.Contracts[funcKey(callee)]; c != nil {
+			if c := e.prog.Contracts[funcKey(callee)]; c != nil && !c.Uses["inline_at_calls"] {
 				for _, m := range e.expandMods(c.Modifies) {
 					addAll(e.modName(m))
 				}
